@@ -81,10 +81,11 @@ Fresh(l, cfg, prev) ==
    cid |-> cfg.client_id, kaAdv |-> cfg.ka, K |-> 0,
    reqs |-> << >>, hmap |-> << >>, recn |-> 0,
    owed |-> << >>, aw |-> 0, sids |-> {},
-   unres |-> {}, early |-> {}, carried |-> {},
+   unres |-> {}, pe |-> "", dcan |-> FALSE, taint |-> 0,
    lastDone |-> 0, pingAt |-> -1, pingOut |-> FALSE, overslept |-> TRUE, wake |-> -1,
    dead |-> FALSE, ioDead |-> << 0, 0, 0 >>, lastio |-> << 0, 0, 0 >>,
    sum |-> EmptySum, prev |-> prev, mark |-> 0,
+   lastobs |-> [live |-> FALSE, q |-> TRUE, h |-> << >>],
    v |-> << >>, kf |-> << >>]
 
 ---------------------------------------------------------------------------
@@ -173,7 +174,7 @@ C10Gap(h) ==
 
 \* the client went to sleep inside poll/recv asking to be woken at `wake`
 C10Yield(h, wake) ==
-  IF ~(h.up /\ ~h.dead /\ h.op.name \in {"poll", "recv"}) THEN h
+  IF ~(h.up /\ ~h.dead /\ h.op.name \in {"poll", "recv"} /\ h.pe = "rpend") THEN h
   ELSE
   LET h1 == IF h.K > 0 /\ ~h.overslept
             THEN CheckKF(h, wake >= 0 /\ wake <= h.lastDone + h.K, "C10",
@@ -190,18 +191,13 @@ C10Yield(h, wake) ==
 \* outbound packets (bytes the transport accepted, framed)
 
 \* C06: identifiers of QoS>0 PUBLISH packets the broker has received on this connection and not
-\* resolved.  D4: exchanges resolved early by the client (quota returned on PUBREC);
-\* D5: publishes carried over from an earlier connection.
-C06Check(h, id) ==
-  LET un == h.unres \cup {id}
-      excess == Cardinality(un) - h.ack.rm
-      \* publishes whose PUBREC the broker has sent but not their PUBCOMP
-      inrec == {x \in un : x \in h.early}
-      old == {x \in un : x \in h.carried}
-  IN CheckKF([h EXCEPT !.unres = un], excess <= 0, "C06",
-             "more unresolved QoS>0 PUBLISH packets than Receive Maximum",
-             IF excess <= Cardinality(inrec) THEN "D4" ELSE "D5",
-             excess <= Cardinality(inrec) + Cardinality(old))
+\* resolved.  Known finding D5b: the broker lowered Receive Maximum below the number of
+\* publishes carried over from the previous connection and the replay itself exceeds it
+\* (signature: the packet that exceeds the window is a retransmission).
+C06Check(h, id, replay) ==
+  LET un == h.unres \cup {id} IN
+  CheckKF([h EXCEPT !.unres = un], Cardinality(un) <= h.ack.rm, "C06",
+          "more unresolved QoS>0 PUBLISH packets than Receive Maximum", "D5b", replay)
 
 OutPublishQ0(h, d, pkt) ==
   LET o == h.op IN
@@ -260,9 +256,8 @@ OutRequest(h, d, pkt) ==
       h10 == [h9 EXCEPT !.reqs[k].id = d.id,
                         !.reqs[k].bytes = IF first THEN ClearDup(pkt) ELSE @,
                         !.reqs[k].st = IF @ \in {"pend", "unk"} THEN "acc" ELSE @,
-                        !.reqs[k].sc = h.ci, !.reqs[k].n = cnt,
-                        !.carried = IF r.cc < h.ci /\ d.t = PUBLISH THEN @ \cup {d.id} ELSE @]
-  IN IF d.t = PUBLISH THEN C06Check(h10, d.id) ELSE h10
+                        !.reqs[k].sc = h.ci, !.reqs[k].n = cnt]
+  IN IF d.t = PUBLISH THEN C06Check(h10, d.id, r.cc < h.ci) ELSE h10
 
 OutAck(h, d) ==
   IF h.aw < Len(h.owed)
@@ -327,7 +322,9 @@ OnOut(h, pkt) ==
                     "D3", d0.st = "badflags" /\ d0.fl = 10 /\ replayed)
       h2 == Check(h1, (h.wn = 0) = (pkt[1] \div 16 = CONNECT), "C01",
                   "CONNECT must be the first and only the first packet on a transport")
-      h3 == Check(h2, ~h.wdisc, "C01", "a packet follows DISCONNECT")
+      \* D2: a disconnect() whose future was dropped after its DISCONNECT had reached the wire
+      \* leaves the handle live
+      h3 == CheckKF(h2, ~h.wdisc, "C01", "a packet follows DISCONNECT", "D2", h.dcan)
       h4 == Check(h3, (pkt[1] \div 16 = CONNECT) \/ ~h.ack.have \/ h.ack.maxpkt < 0
                       \/ Len(pkt) <= h.ack.maxpkt,
                   "C14", "outbound packet longer than the broker's Maximum Packet Size")
@@ -449,8 +446,7 @@ OnBroker(h, pkt) ==
   LET d == DecServer(pkt) IN
   IF d.st # "ok" THEN h
   ELSE IF d.t = PUBACK \/ d.t = PUBCOMP \/ (d.t = PUBREC /\ d.rc >= 128)
-  THEN [h EXCEPT !.unres = @ \ {d.id}, !.early = @ \ {d.id}]
-  ELSE IF d.t = PUBREC THEN [h EXCEPT !.early = @ \cup {d.id}]
+  THEN [h EXCEPT !.unres = @ \ {d.id}]
   ELSE h
 
 RECURSIVE DrainBroker(_)
@@ -493,7 +489,7 @@ ObsChecks(h, obs) ==
                  Viol(h2, IF h.reqs[k].kind = "P1" THEN "C02" ELSE IF h.reqs[k].kind = "P2" THEN "C03" ELSE "C05",
                       "session reports quiescent although an accepted operation is unacknowledged")
             ELSE h2
-  IN [h3 EXCEPT !.lastio = obs.io]
+  IN [h3 EXCEPT !.lastio = obs.io, !.lastobs = obs]
 
 ---------------------------------------------------------------------------
 \* event handlers
@@ -501,13 +497,13 @@ ObsChecks(h, obs) ==
 IoOnDead(h) ==
   IF h.up /\ h.dead THEN Viol(h, "C11", "transport touched after the handle died") ELSE h
 
-StepConn(h) ==
+StepConn(h, e) ==
   [h EXCEPT !.ci = @ + 1, !.wtail = << >>, !.wn = 0, !.wdisc = FALSE, !.rtail = << >>,
-            !.btail = << >>, !.ack = NoAck, !.aw = 0, !.unres = {}, !.early = {}, !.carried = {},
+            !.btail = << >>, !.ack = NoAck, !.aw = 0, !.unres = {}, !.dcan = FALSE, !.taint = 0,
             !.dead = FALSE, !.pingAt = -1, !.pingOut = FALSE, !.overslept = TRUE, !.up = FALSE,
             !.op = [name |-> "conn", l |-> h.l, prog |-> FALSE, nin |-> 0, bad |-> FALSE,
                     dc |-> FALSE, disc |-> FALSE, unexp |-> FALSE, fault |-> FALSE, eof |-> FALSE,
-                    rej |-> -1, hasmsg |-> FALSE, deadcall |-> FALSE, healthy |-> FALSE]]
+                    rej |-> -1, hasmsg |-> FALSE, deadcall |-> FALSE, healthy |-> e.healthy]]
 
 BaseOp(h, e) ==
   [name |-> e.e, l |-> h.l, e |-> e, prog |-> FALSE, nin |-> 0, bad |-> FALSE, dc |-> FALSE,
@@ -696,12 +692,22 @@ StepCancel(h, e) ==
             THEN [h EXCEPT !.reqs[o.req].st = IF @ = "pend" THEN "unk" ELSE @]
             ELSE h
       h2 == ObsChecks(h1, e.obs)
-  IN [h2 EXCEPT !.op = NoOp, !.sum.res = Append(@, << o.name, "cancel", "", -1 >>)]
+      wrote == o.name = "disconnect" /\ o.prog
+  IN [h2 EXCEPT !.op = NoOp, !.sum.res = Append(@, << o.name, "cancel", "", -1 >>),
+                !.dcan = @ \/ wrote,
+                !.taint = IF wrote /\ h.wtail # << >> /\ @ = 0 THEN 1 ELSE @]
 
 StepW(h, e) ==
   LET h0 == IoOnDead(h)
       h1 == [h0 EXCEPT !.wtail = @ \o e.bytes, !.op.prog = IF e.acc > 0 THEN TRUE ELSE @]
-  IN DrainOut(h1)
+  IN \* D2: a disconnect() dropped after part of its DISCONNECT was written leaves the handle live
+     \* with a broken packet on the wire; whatever is written next starts inside that packet and
+     \* the rest of this transport's byte stream can no longer be framed.
+     IF h.taint = 1
+     THEN LET k == CheckKF(h1, FALSE, "C01", "a packet starts in the middle of a cancelled DISCONNECT", "D2", TRUE)
+          IN [CheckKF(k, FALSE, "C13", "a cancelled disconnect corrupts the outbound stream", "D2", TRUE)
+              EXCEPT !.taint = 2]
+     ELSE DrainOut(h1)
 
 StepF(h, e) ==
   LET h0 == IoOnDead(h) IN
@@ -713,10 +719,28 @@ StepF(h, e) ==
 
 StepR(h, e) == DrainIn([IoOnDead(h) EXCEPT !.rtail = @ \o e.bytes])
 
+\* C16: after the benign continuation (healthy transport, conformant broker, resumed session,
+\* poll() until nothing is outstanding) everything accepted has completed
+StepDrainEnd(h, e) ==
+  LET o == h.lastobs
+      h1 == Check(h, e.done, "C16", "benign continuation did not reach a quiescent session within the step bound")
+      h2 == Check(h1, \A i \in 1..Len(o.h) : o.h[i] # "p", "C16", "an operation is still pending after the benign continuation")
+      h3 == Check(h2, h.owed = << >>, "C16", "an owed acknowledgement was never sent")
+      stuck == {k \in 1..Len(h.reqs) : InFlight(h, k)}
+      h4 == IF stuck # {} /\ e.done
+            THEN LET k == CHOOSE k \in stuck : TRUE IN
+                 Viol(h3, IF h.reqs[k].kind = "P1" THEN "C02" ELSE IF h.reqs[k].kind = "P2" THEN "C03" ELSE "C05",
+                      "an accepted operation was never completed although the broker answered everything")
+            ELSE h3
+  IN h4
+
 Step(h0, e) ==
   LET h == [h0 EXCEPT !.v = << >>, !.kf = << >>] IN
+  \* after known finding D2 has garbled a transport's byte stream nothing observed later in this
+  \* run can be attributed reliably: monitoring resumes with the next run
+  IF h.taint = 2 /\ e.e # "cfg" THEN h ELSE
   CASE e.e = "cfg" -> Fresh(h.l, e.cfg, h.sum)
-    [] e.e = "conn" -> StepConn(h)
+    [] e.e = "conn" -> StepConn(h, e)
     [] e.e \in {"publish", "subscribe", "unsubscribe", "poll", "recv", "drive", "disconnect"} -> StepCall(h, e)
     [] e.e = "w" -> StepW(h, e)
     [] e.e = "wpend" -> IoOnDead(h)
@@ -736,7 +760,7 @@ Step(h0, e) ==
     [] e.e = "drop" -> ObsChecks([h EXCEPT !.up = FALSE, !.op = NoOp], e.obs)
     [] e.e = "panic" -> Viol(h, "PANIC", "the client panicked")
     [] e.e = "watchdog" -> Viol(h, "C16", "run-away: I/O watchdog tripped (unbounded loop or re-sending)")
-    [] e.e = "healthy" -> [h EXCEPT !.op.healthy = TRUE]
+    [] e.e = "drainend" -> StepDrainEnd(h, e)
     [] OTHER -> h
 
 ---------------------------------------------------------------------------
@@ -746,7 +770,7 @@ Init == H = Fresh(1, [client_id |-> << >>, ka |-> 0, rx |-> 0], EmptySum)
 
 Next ==
   /\ H.l <= Len(Rec)
-  /\ H' = [Step(H, Rec[H.l]) EXCEPT !.l = H.l + 1]
+  /\ H' = [Step(H, Rec[H.l]) EXCEPT !.l = H.l + 1, !.pe = Rec[H.l].e]
 
 Spec == Init /\ [][Next]_H
 
